@@ -35,7 +35,7 @@ func roleOf(point string) string {
 		return "qlistener"
 	case strings.HasPrefix(point, "queryEventExpire"):
 		return "qtimer"
-	case strings.HasPrefix(point, "updateIndex"):
+	case strings.HasPrefix(point, "updateIndex"), point == "tq.next":
 		return "tqworker"
 	case point == "Shutdown" || strings.HasPrefix(point, "close."):
 		return "selfshutdown"
